@@ -29,10 +29,14 @@ Kind(x, objs) == IF x.t = "obj" THEN objs[x.i].k ELSE x.t
 \*                             le a<=b | ge a>=b | lt a<b | gt a>b | eq a==b
 \*                             mx11 / mx12: entry [0,0] / [0,1] of PSDMatrix([[a, b], [b, a]])  (PEPit/psd_matrix.py: scalars
 \*                             become constant expressions, expressions are stored as they are, anything else raises)
-BinOps == {"add", "sub", "mul", "div", "le", "ge", "lt", "gt", "eq", "mx11", "mx12"}
+\*                             iadd a+=b | isub a-=b | imul a*=b | idiv a/=b : the augmented spellings; Python rebinds the
+\*                             name to a NEW object, every other reference to the old object keeps its meaning
+BinOps == {"add", "sub", "mul", "div", "le", "ge", "lt", "gt", "eq", "mx11", "mx12", "iadd", "isub", "imul", "idiv"}
+Plain(op) == CASE op = "iadd" -> "add" [] op = "isub" -> "sub" [] op = "imul" -> "mul" [] op = "idiv" -> "div" [] OTHER -> op
 UnOps == {"neg", "sq", "pow3"}
-Apply(o, objs) ==
-  LET ka == Kind(o.a, objs)  kb == Kind(o.b, objs)
+Apply(oo, objs) ==
+  LET o == [oo EXCEPT !.op = Plain(oo.op)]
+      ka == Kind(o.a, objs)  kb == Kind(o.b, objs)
       A == IF o.a.t = "obj" THEN objs[o.a.i] ELSE Raised
       B == IF o.b.t = "obj" THEN objs[o.b.i] ELSE Raised
       sa == IF o.a.t = "sc" THEN Scalars[o.a.i] ELSE Z
@@ -78,8 +82,9 @@ DenP(p, env) == PtVal(p, PEnv(env))
 DenE(e, env) == EVal(e, PEnv(env), FEnv(env))
 DenOperandNum(x, objs, env) == IF x.t = "sc" THEN Scalars[x.i] ELSE DenE(objs[x.i].e, env)
 \* what the operator means on values
-Meaning(o, objs, R, env) ==
-  LET ka == Kind(o.a, objs)  kb == Kind(o.b, objs)
+Meaning(oo, objs, R, env) ==
+  LET o == [oo EXCEPT !.op = Plain(oo.op)]
+      ka == Kind(o.a, objs)  kb == Kind(o.b, objs)
       pa == DenP(objs[o.a.i].p, env)  pb == DenP(objs[o.b.i].p, env)
       na == DenOperandNum(o.a, objs, env)  nb == DenOperandNum(o.b, objs, env)
   IN
@@ -113,7 +118,10 @@ Init == objs = InitObjs /\ hist = <<>> /\ done = FALSE
 Idx(kind) == {i \in DOMAIN objs : objs[i].k = kind}
 ScI == 1..Len(Scalars)
 WellTyped ==
-       {[op |-> n, a |-> Obj(i), b |-> Obj(j)] : n \in {"add", "sub", "mul"}, i \in Idx("pt"), j \in Idx("pt")}
+       {[op |-> n, a |-> Obj(i), b |-> Obj(j)] : n \in {"add", "sub", "mul", "iadd", "isub"}, i \in Idx("pt"), j \in Idx("pt")}
+  \cup {[op |-> n, a |-> Obj(i), b |-> Obj(j)] : n \in {"iadd", "isub"}, i \in Idx("ex"), j \in Idx("ex")}
+  \cup {[op |-> n, a |-> Obj(i), b |-> Sc(s)] : n \in {"iadd", "isub", "imul", "idiv"}, i \in Idx("ex"), s \in ScI}
+  \cup {[op |-> n, a |-> Obj(i), b |-> Sc(s)] : n \in {"imul", "idiv"}, i \in Idx("pt"), s \in ScI}
   \cup {[op |-> n, a |-> Obj(i), b |-> Obj(j)] : n \in {"add", "sub", "le", "ge", "lt", "gt", "eq"}, i \in Idx("ex"), j \in Idx("ex")}
   \cup {[op |-> n, a |-> Obj(i), b |-> Sc(s)] : n \in {"add", "sub", "mul", "div", "le", "ge", "lt", "gt", "eq", "mx11", "mx12"}, i \in Idx("ex"), s \in ScI}
   \cup {[op |-> n, a |-> Sc(s), b |-> Obj(i)] : n \in {"add", "sub", "mul", "le", "ge", "lt", "gt", "eq", "mx11", "mx12"}, i \in Idx("ex"), s \in ScI}
@@ -122,7 +130,7 @@ WellTyped ==
   \cup {[op |-> "mul", a |-> Sc(s), b |-> Obj(i)] : i \in Idx("pt"), s \in ScI}
   \cup {[op |-> n, a |-> Obj(i), b |-> No] : n \in {"neg"}, i \in Idx("pt") \cup Idx("ex")}
   \cup {[op |-> "sq", a |-> Obj(i), b |-> No] : i \in Idx("pt")}
-DivByZero(o) == o.op = "div" /\ o.b.t = "sc" /\ Scalars[o.b.i] = Z
+DivByZero(o) == o.op \in {"div", "idiv"} /\ o.b.t = "sc" /\ Scalars[o.b.i] = Z
 \* operands of undocumented kinds: wrong object kind, or junk python values; only on the initial objects
 \* ('==' between two non-expressions is Python's default comparison and returns a bool: not part of the DSL)
 Initial == 1..(NP + NE + 1)
